@@ -305,6 +305,10 @@ func (m *Model) Apply(cmd *Cmd) Expect {
 		if t.Def.index(cmd.IdxDef.Name) != nil {
 			return Expect{Unspecified: true}
 		}
+		if cmd.Helper && t.Def.Billing != "PAY_PER_REQUEST" {
+			// the AddIndex helper sends no provisioned throughput: a provisioned table rejects that
+			return Expect{AnyFail: true}
+		}
 		t.Def.Indexes = append(t.Def.Indexes, cmd.IdxDef.clone())
 		return Expect{Out: Outcome{Class: "ok", Desc: t.describe()}, Applied: true}
 	case "IndexDrop":
@@ -525,10 +529,13 @@ func (m *Model) applyBad(c *MClient, cmd *Cmd) Expect {
 	return Expect{AnyFail: true, MayAccept: badMayAccept(cmd.Bad)}
 }
 
+// badMayAccept: whether the request is rejected at all is the strictness of
+// the expression front end and of the usage restrictions (C09, C16 - not
+// claimed). What C08 fixes is only what happens when it IS rejected.
 func badMayAccept(kind string) bool {
 	switch kind {
-	case "key-extra":
-		return true
+	case "key-missing", "key-type":
+		return false
 	}
-	return false
+	return true
 }
